@@ -137,6 +137,12 @@ impl IotaDID {
   ///
   /// Returns `Err` if the input does not conform to the [`IotaDID`] specification.
   pub fn try_from_core(did: CoreDID) -> Result<Self> {
+    // Bring the DID into the same lowercase form as `parse`, so that equality does not depend on the construction path.
+    let did: CoreDID = if did.as_str().chars().any(|ch| ch.is_uppercase()) {
+      CoreDID::parse(did.as_str().to_lowercase())?
+    } else {
+      did
+    };
     Self::check_validity(&did)?;
 
     Ok(Self(Self::normalize(did)))
